@@ -149,6 +149,30 @@ theorem UserSafe.append_user {tr : List Event} (h : UserSafe tr) (i j : Nat)
       rw [← hm.1] at htr
       exact h a m' i' j' htr l hl
 
+/-- every launch -- completed or interrupted -- is for the step whose number is the number of steps completed
+    before it: a completed step is never launched again, no step is launched before its predecessor completed -/
+def LaunchOrd (B : Nat) (tr : List Event) : Prop :=
+  ∀ a b l, tr = a ++ Event.launched l :: b → stepNo B l = (completedOf a).length
+
+theorem LaunchOrd.append {B : Nat} {tr es : List Event} (h : LaunchOrd B tr)
+    (hes : ∀ a' b l, es = a' ++ Event.launched l :: b →
+      stepNo B l = (completedOf tr).length + (completedOf a').length) : LaunchOrd B (tr ++ es) := by
+  intro a b l hsplit
+  rcases List.append_eq_append_iff.mp hsplit with ⟨m, ha, hes'⟩ | ⟨m, htr, hm⟩
+  · rw [ha, completedOf_append, List.length_append]
+    exact hes m b l hes'
+  · cases m with
+    | nil =>
+      simp only [List.nil_append] at hm
+      simp only [List.append_nil] at htr
+      subst htr
+      have := hes [] b l hm.symm
+      simpa [completedOf] using this
+    | cons x m' =>
+      simp only [List.cons_append, List.cons.injEq] at hm
+      rw [← hm.1] at htr
+      exact h a m' l htr
+
 /-! ## the invariant -/
 
 structure GI (t : Tree) (tr : List Event) (p : Prog) (jk : Junk) : Prop where
@@ -161,6 +185,7 @@ structure GI (t : Tree) (tr : List Event) (p : Prog) (jk : Junk) : Prop where
   launched : ∀ l ∈ launchedOf tr, l ∈ p.flat ∨ (¬ isFinished cfg p ∧ planLaunch cfg p = .ok l)
   noScript : ∀ e ∈ tr, ∀ i j, e ≠ Event.scriptRemoved i j
   userSafe : UserSafe tr
+  lord : LaunchOrd cfg.B tr
 
 theorem GI.init : GI cfg Tree.empty [] Prog.empty .none where
   iters := by simp [Tree.empty, treeIters, lastIter, Prog.empty, itersFrom]
@@ -172,9 +197,17 @@ theorem GI.init : GI cfg Tree.empty [] Prog.empty .none where
   launched := by intro l hl; simp [launchedOf] at hl
   noScript := by intro e he; simp at he
   userSafe := by intro a b i j h; cases a <;> simp at h
+  lord := by intro a b l h; cases a <;> simp at h
+
+/-- the step number of the launch planned after the completed steps `p` is the number of completed steps -/
+theorem stepNo_planLaunch (hB : 1 ≤ cfg.B) {p : Prog} (hc : CRun cfg p) {l : Launch} (hl : planLaunch cfg p = .ok l) :
+    stepNo cfg.B l = p.flat.length := by
+  have hpos := planLaunch_pos cfg hl
+  rw [flat_length (hc.ok cfg hB)]
+  simp only [stepNo, hpos.1, hpos.2]
 
 /-- same completed steps, new junk, events that neither complete nor remove anything -/
-theorem GI.same {t tr p jk} (h : GI cfg t tr p jk) (jk' : Junk) (es : List Event)
+theorem GI.same (hB : 1 ≤ cfg.B) {t tr p jk} (h : GI cfg t tr p jk) (jk' : Junk) (es : List Event)
     (hj : JunkOK jk') (hjc : jk' = .emptyIter → p.cur = [])
     (hcomp : completedOf es = [])
     (hl : ∀ l ∈ launchedOf es, ¬ isFinished cfg p ∧ planLaunch cfg p = .ok l)
@@ -200,6 +233,18 @@ theorem GI.same {t tr p jk} (h : GI cfg t tr p jk) (jk' : Junk) (es : List Event
     · exact h.noScript e he
     · exact hns e he
   userSafe := h.userSafe.append_noUser hnu
+  lord := by
+    apply h.lord.append
+    intro a' b l hsplit
+    have hca : completedOf a' = [] := by
+      have := hcomp
+      rw [hsplit, completedOf_append] at this
+      exact (List.append_eq_nil_iff.mp this).1
+    have hmem : l ∈ launchedOf es := by
+      rw [hsplit, launchedOf_append]
+      simp [launchedOf]
+    rw [hca, h.comp, stepNo_planLaunch cfg hB h.crun (hl l hmem).2]
+    simp
 
 theorem takeB_eq {α : Type} (k : Option Nat) (as : List α) : takeB k as = as.take (k.getD as.length) := by
   cases k <;> simp [takeB]
@@ -307,7 +352,7 @@ theorem invokeCore_quiet (hml : MarkerLast cfg) (hB : 1 ≤ cfg.B) {tr : List Ev
   by_cases hf : isFinished cfg p
   · rw [if_pos hf]
     simp only
-    exact ⟨p, _, h.same cfg _ [Event.finished] h.junk h.jkcur rfl (by simp [launchedOf])
+    exact ⟨p, _, h.same cfg hB _ [Event.finished] h.junk h.jkcur rfl (by simp [launchedOf])
       (by intro e he; simp at he; subst he; intro i j hh; cases hh)
       (by intro e he; simp at he; subst he; intro i j hh; cases hh)⟩
   · rw [if_neg hf]
@@ -317,7 +362,7 @@ theorem invokeCore_quiet (hml : MarkerLast cfg) (hB : 1 ≤ cfg.B) {tr : List Ev
       rw [takeB_eq, doneB_eq]
       obtain ⟨jk', happ, hj', hjc', _⟩ := pre_take cfg p jk hq (k.getD (preOf p jk).length)
       rw [happ, removalEvents_preOf_take]
-      refine ⟨p, jk', h.same cfg jk' _ hj' hjc' ?_ ?_ ?_ ?_⟩
+      refine ⟨p, jk', h.same cfg hB jk' _ hj' hjc' ?_ ?_ ?_ ?_⟩
       · split <;> simp [completedOf]
       · split <;> simp [launchedOf]
       · intro e he; split at he <;> simp at he; subst he; intro i j hh; cases hh
@@ -364,18 +409,35 @@ theorem invokeCore_quiet (hml : MarkerLast cfg) (hB : 1 ≤ cfg.B) {tr : List Ev
               · exact h.noScript e he
               · simp at he; rcases he with rfl | rfl <;> (intro i j hh; cases hh)
             userSafe := h.userSafe.append_noUser (by
-              intro e he; simp at he; rcases he with rfl | rfl <;> (intro i j hh; cases hh)) }
+              intro e he; simp at he; rcases he with rfl | rfl <;> (intro i j hh; cases hh))
+            lord := by
+              apply h.lord.append
+              intro a' b l' hsplit
+              cases a' with
+              | nil =>
+                simp only [List.nil_append, List.cons.injEq, Event.launched.injEq] at hsplit
+                rw [← hsplit.1, h.comp, stepNo_planLaunch cfg hB h.crun hpl]
+                simp [completedOf]
+              | cons x a'' =>
+                simp only [List.cons_append, List.cons.injEq] at hsplit
+                have h2 := hsplit.2
+                cases a'' with
+                | nil => simp at h2
+                | cons y a3 =>
+                  simp only [List.cons_append, List.cons.injEq] at h2
+                  have := congrArg List.length h2.2
+                  simp at this }
         · -- interrupted during publication
           simp only [hd2, decide_false, Bool.not_false, ↓reduceIte]
           obtain ⟨s, happ2, hjs⟩ := hpub.1 (by omega)
           rw [happ2]
-          refine ⟨p, .plate s, h.same cfg _ _ hjs (by intro hh; cases hh) (by simp [completedOf]) ?_ ?_ ?_⟩
+          refine ⟨p, .plate s, h.same cfg hB _ _ hjs (by intro hh; cases hh) (by simp [completedOf]) ?_ ?_ ?_⟩
           · intro l' hl'; simp [launchedOf] at hl'; subst hl'; exact ⟨hf, hpl⟩
           · intro e he; simp at he; subst he; intro i j hh; cases hh
           · intro e he; simp at he; subst he; intro i j hh; cases hh
       · -- interrupted during makedirs
         simp only [hd1, decide_false, Bool.not_false, ↓reduceIte]
-        exact ⟨p, jk', h.same cfg jk' [] hj' hjc' rfl (by simp [launchedOf]) (by simp) (by simp)⟩
+        exact ⟨p, jk', h.same cfg hB jk' [] hj' hjc' rfl (by simp [launchedOf]) (by simp) (by simp)⟩
 
 
 /-- **one call of the step function, interrupted anywhere, preserves the invariant** -/
@@ -422,7 +484,16 @@ theorem invokeCore_inv (hml : MarkerLast cfg) (hB : 1 ≤ cfg.B) {t : Tree} {tr 
         rcases he with he | he
         · exact h.noScript e he
         · simp only [List.mem_singleton] at he; subst he; intro i j hh; cases hh
-      userSafe := h.userSafe.append_user _ _ hnext }
+      userSafe := h.userSafe.append_user _ _ hnext
+      lord := by
+        apply h.lord.append
+        intro a' b l hsplit
+        cases a' with
+        | nil => simp at hsplit
+        | cons x a'' =>
+          simp only [List.cons_append, List.cons.injEq] at hsplit
+          have := congrArg List.length hsplit.2
+          simp at this }
   | none => subst hjk; exact invokeCore_quiet cfg hml hB h (Or.inl rfl) k
   | emptyIter => subst hjk; exact invokeCore_quiet cfg hml hB h (Or.inr ⟨rfl, h.jkcur rfl⟩) k
 
